@@ -42,7 +42,8 @@ IMPORTS = {
             ("c14", None, "an undersized or misused tracker shifts out of range / indexes out of bounds"),
             ("c07", ["R07.3", "R07.5"], "the builders index the token list unchecked: they may only run past the token check"),
             ("c07", ["R07.6"], "the tokenizer slices the text at its read position: a step that is not the byte length of a matched prefix can land inside a character or past the end"),
-            ("c13", ["R13.7"], "the tokenizer slices the text at the offset the boundary helper returns")],
+            ("c13", ["R13.7"], "the tokenizer slices the text at the offset the boundary helper returns"),
+            ("c13", ["R13.5"], "a variable name is a slice of the text: the audited ranges are the matched identifier and `1..offset of the closing brace (or the end)` of a text that starts with the one-byte `{`; any other range may be out of bounds or inside a character")],
     "C07": [("c13", None, "what the tokenizer accepts as a token decides what is malformed"),
             ("c06", ["R06.1", "R06.2", "R06.3"], "a panic or a hang is not an error report")],
     "C08": [("c01", ORDER, "the rewritten call and its explicit form are evaluated through the same application order"),
